@@ -167,6 +167,22 @@ MUTATIONS = [
     ("calc_dihedrals NEUTRAL: g.neighbors instead of g.adj, locals renamed, explicit concatenation", "neutral", U,
      [("        a_neighbors = list(g.adj[a])\n        a_neighbors.remove(b)\n        b_neighbors = list(g.adj[b])\n        b_neighbors.remove(a)\n\n        dihedrals += [(a1, a, b, b1) for a1 in a_neighbors for b1 in b_neighbors]\n",
        "        left = list(g.neighbors(a))\n        left.remove(b)\n        right = list(g.neighbors(b))\n        right.remove(a)\n        new = [(x, a, b, y) for x in left for y in right]\n        dihedrals = dihedrals + new\n")], "C19", "pass"),
+    # ---- batch 8, item 2: the type-numbering slice of assign_bond_types / assign_angle_types
+    ("assign_bond_types: dict.fromkeys -> set", "unsupported", U,
+     [("unique_bond_types = list(dict.fromkeys(bond_types).keys())", "unique_bond_types = list(set(bond_types))")], "C19", "Unsupported"),
+    ("assign_bond_types: len(exclude) >= 2 -> > 2", "breaking", U,
+     [("    if exclude is not None and len(exclude) >= 2:", "    if exclude is not None and len(exclude) > 2:")], "C19", "fail"),
+    ("assign_angle_types: len(exclude) >= 3 -> >= 2", "breaking", U,
+     [("    if exclude is not None and len(exclude) >= 3:", "    if exclude is not None and len(exclude) >= 2:")], "C19", "fail"),
+    ("assign_bond_types: typekey dropped from the keys", "breaking", U,
+     [("bond_types = [typekey([uff_atom_types[a] for a in atup]) for atup in atoms.bonds]", "bond_types = [[uff_atom_types[a] for a in atup] for atup in atoms.bonds]")], "C19", "fail"),
+    ("assign_angle_types: numbered against the reversed unique list", "breaking", U,
+     [("    unique_angle_types = list(dict.fromkeys(angle_types).keys())\n", "    unique_angle_types = list(dict.fromkeys(angle_types).keys())\n    unique_angle_types.reverse()\n")], "C19", "fail"),
+    ("assign_bond_types: exclusion result not stored", "breaking", U,
+     [("            atoms.bonds = delete_if_all_in_set(atoms.bonds, exclude)\n", "            delete_if_all_in_set(atoms.bonds, exclude)\n")], "C19", "fail"),
+    ("assign_bond_types NEUTRAL: list(dict.fromkeys(..)) without .keys(), locals renamed", "neutral", U,
+     [("    unique_bond_types = list(dict.fromkeys(bond_types).keys())\n    # bond_types are the index of the type in the unique_bond_types list\n    atoms.bond_types = [unique_bond_types.index(bt) for bt in bond_types]\n",
+       "    uniq = list(dict.fromkeys(bond_types))\n    atoms.bond_types = [uniq.index(k) for k in bond_types]\n    unique_bond_types = uniq\n")], "C19", "pass"),
     ("getitem NEUTRAL: keywords reordered", "neutral", A,
      [("        return Atoms(positions=np.take(self.positions, idx, axis=0),\n                     atom_types=np.take(self.atom_types, idx, axis=0),\n",
        "        return Atoms(atom_types=np.take(self.atom_types, idx, axis=0),\n                     positions=np.take(self.positions, idx, axis=0),\n")], "C09", "pass"),
@@ -342,6 +358,15 @@ def python_side():
     except ValueError:
         pass
     assert [(x, y) for x in [1, 2] for y in [7, 8, 9]] == [(1, 7), (1, 8), (1, 9), (2, 7), (2, 8), (2, 9)]
+    assert list(dict.fromkeys([3, 1, 3, 2, 1]).keys()) == [3, 1, 2] == list(dict.fromkeys([3, 1, 3, 2, 1]))      # Py6.fromkeysList
+    assert list(dict.fromkeys([("b", "a"), ("a",), ("b", "a")])) == [("b", "a"), ("a",)]
+    assert [3, 1, 2, 1].index(1) == 1 and [3, 1, 2].index(2) == 2                                                # Py6.listIndex?
+    try:
+        [3, 1, 2].index(5)
+        raise AssertionError
+    except ValueError:
+        pass
+    assert len({1, 2, 2}) == 2                                                                                   # Py.setLen on `exclude`
     import random
     rnd = random.Random(6)
     for _ in range(300):
